@@ -61,15 +61,22 @@ def sublattices(tier, seed):
                 for k in sorted({0, 1, meta_len // 2, meta_len - 1}):
                     faults.append({'kind': 'fault', 'sizes': sizes, 'scheme': scheme, 'step': step, 'mode': f'tear:{k}', 'what': ' '.join(log[step - 1])})
     retry = [{'kind': 'refusal-retry', 'rule': r, 'pos': p, 'sizes': [2, 1, 2]} for r in RETRY_RULES for p in range(3)]
+    species = [{'kind': 'species-reject', 'layout': lay, 'session': ses, 'pos': pos, 'bad': bad}
+               for lay in ('single', 'assoc-together', 'assoc-mapped') for ses in ('create', 'append') for pos in ('first', 'after-good')
+               for bad in ('base-field', 'assoc-field') if not (lay == 'assoc-mapped' and ses == 'create') and not (lay == 'single' and bad == 'assoc-field')]
     return [
         {'name': 'interrupted-merge', 'axes': {'scenario': [f'{s}/{c}' for s, c in scen], 'step': 'every intercepted call of the clean run', 'mode': ['before', 'after', 'tear:k (metadata write)']}, 'cases': faults, 'scenarios': info},
         {'name': 'refused-merge-retry', 'axes': {'rule': RETRY_RULES, 'pos': [0, 1, 2]}, 'cases': retry},
+        {'name': 'rejected-add: species outside the species dimension of the file holding the field',
+         'axes': {'layout': ['single', 'assoc-together', 'assoc-mapped'], 'session': ['create', 'append'], 'position': ['first', 'after-good'], 'offending field in': ['base file', 'associated file']},
+         'cases': species},
     ]
 
 
 def worker_init(tier, seed):
     mm.assoc_fieldsets()
     sm.extra_fieldset()
+    _species_fieldsets()
 
 
 def run_case(case):
@@ -80,10 +87,127 @@ def run_case(case):
     try:
         if case['kind'] == 'fault':
             return fault_case(tmp, case)
+        if case['kind'] == 'species-reject':
+            return species_case(tmp, case)
         return retry_case(tmp, case)
     finally:
         gc.collect()
         shutil.rmtree(tmp, ignore_errors=True)
+
+
+_SFS = {}
+
+
+def _species_fieldsets():
+    if 's1' not in _SFS:
+        from AEIC.storage import Dimensions, FieldMetadata, FieldSet
+
+        _SFS['s1'] = FieldSet('vf_c10_s1', sa=FieldMetadata(dimensions=Dimensions.from_abbrev('TS'), description='c10 species a', units='g'))
+        _SFS['s2'] = FieldSet('vf_c10_s2', sb=FieldMetadata(dimensions=Dimensions.from_abbrev('TS'), description='c10 species b', units='g'))
+    return _SFS
+
+
+def species_case(tmp, case):
+    """A trajectory whose species-indexed value names a species the file holding that field has no slot
+    for must be refused and leave the store exactly as it was (list model)."""
+    from AEIC.trajectories import TrajectoryStore
+    from AEIC.types import Species, SpeciesValues
+
+    fs = _species_fieldsets()
+    lay, ses, pos, bad = case['layout'], case['session'], case['pos'], case['bad']
+    base, assoc = tmp / 'b.nc', tmp / 'a.nc'
+    two = lay != 'single'
+
+    def traj(k, with_s2, offending=None):
+        t = sm.make_traj(k, False)
+        t.add_fields(fs['s1'])
+        t.sa = SpeciesValues({Species.CO2: 10.0 + k} if offending != 'base-field' else {Species.CO2: 10.0 + k, Species.HC: 1.0})
+        if with_s2:
+            t.add_fields(fs['s2'])
+            t.sb = SpeciesValues({Species.CO2: 20.0 + k, Species.NOx: 30.0 + k} if offending != 'assoc-field'
+                                 else {Species.CO2: 20.0 + k, Species.NOx: 30.0 + k, Species.SO2: 2.0})
+        return t
+
+    class Mapped:
+        FIELD_SETS = [fs['s2']]
+
+        def __init__(self, k):
+            self.sb = SpeciesValues({Species.CO2: 20.0 + k, Species.NOx: 30.0 + k})
+
+    items = []
+    vio = []
+    tag = f'{lay}/{ses}/{pos}/{bad}'
+    # --- first session: create with one good trajectory (two for the append variants)
+    kw = {'base_file': base}
+    if lay == 'assoc-together':
+        kw['associated_files'] = [(assoc, ['vf_c10_s2'])]
+    store = TrajectoryStore.create(**kw)
+    in_traj_s2 = lay == 'assoc-together'
+    store.add(traj(0, in_traj_s2))
+    items.append(0)
+    if ses == 'append':
+        store.close()
+        gc.collect()
+        if lay == 'assoc-mapped':
+            ro = TrajectoryStore.open(base_file=base)
+            ro.create_associated(assoc, ['vf_c10_s2'], lambda t: Mapped(sm.marker(t)))
+            ro.close()
+            gc.collect()
+        store = TrajectoryStore.append(base_file=base, **({'associated_files': [assoc]} if two else {}))
+        in_traj_s2 = two
+    try:
+        if pos == 'after-good':
+            store.add(traj(len(items), in_traj_s2))
+            items.append(len(items))
+        n_before = len(items)
+        refused = None
+        try:
+            store.add(traj(900, in_traj_s2, offending=bad))
+        except Exception as ex:  # noqa: BLE001
+            refused = f'{type(ex).__name__}: {str(ex)[:120]}'
+        if refused is None:
+            vio.append(V('species-outside-file-accepted', f'{tag}: trajectory with a species the file has no slot for was accepted'))
+        else:
+            if len(store) != n_before:
+                vio.append(V('rejected-add-changed-length', f'{tag}: len {len(store)} after the rejected add ({refused}), was {n_before}'))
+            for i, want in enumerate(items):
+                try:
+                    got = sm.marker(store[i])
+                except Exception as ex:  # noqa: BLE001
+                    got = f'raised {type(ex).__name__}'
+                if got != want:
+                    vio.append(V('rejected-add-changed-contents', f'{tag}: store[{i}] is {got} after the rejected add, expected #{want}'))
+            try:
+                store[n_before]
+                vio.append(V('rejected-add-left-readable-slot', f'{tag}: store[{n_before}] readable after the rejected add ({refused})'))
+            except IndexError:
+                pass
+            except Exception as ex:  # noqa: BLE001
+                vio.append(V('rejected-add-left-broken-slot', f'{tag}: store[{n_before}] raised {type(ex).__name__} instead of IndexError'))
+            try:
+                i = store.add(traj(n_before, in_traj_s2))
+                if i != n_before:
+                    vio.append(V('rejected-add-burnt-index', f'{tag}: next good add got index {i}, expected {n_before}'))
+                items.append(n_before)
+            except Exception as ex:  # noqa: BLE001
+                vio.append(V('store-unusable-after-rejected-add', f'{tag}: next good add raised {type(ex).__name__}: {ex}'))
+    finally:
+        try:
+            store.close()
+        except Exception as ex:  # noqa: BLE001
+            vio.append(V('close-raised-after-rejected-add', f'{tag}: {type(ex).__name__}: {ex}'))
+        gc.collect()
+    if not vio:
+        try:
+            ro = TrajectoryStore.open(base_file=base, **({'associated_files': [assoc]} if two else {}))
+            got = [sm.marker(ro[i]) for i in range(len(ro))]
+            ro.close()
+            if got != items:
+                vio.append(V('reopen-shows-rejected-add', f'{tag}: reopen shows {got}, successful additions were {items}'))
+        except Exception as ex:  # noqa: BLE001
+            vio.append(V('reopen-failed-after-rejected-add', f'{tag}: {type(ex).__name__}: {ex}'))
+        gc.collect()
+    return {'outcome': 'species-rejected' if not vio else 'species-violation', 'nontrivial': True, 'violations': vio}
 
 
 def locate(paths, out, model):
